@@ -153,8 +153,7 @@ def step_desc(kinds, s):
 
 def exc_sig(ex):
   msg = str(ex).splitlines()[0] if str(ex) else ""
-  msg = re.sub(r"\\d+", "N", msg)
-  msg = re.sub(r"'[^']*'", "'_'", msg)
+  msg = re.sub(r"[0-9]+", "N", msg)
   return "%s(%s)" % (type(ex).__name__, msg[:70])
 
 
@@ -198,10 +197,13 @@ def failure_clauses(e, pre, label):
     if g.stored:
       stored = eng.stored_reprs(g)
       fc = formula_columns(e)
-      only_formula = all(a[0] in ("UpdateRecord", "BulkUpdateRecord") and
-                         all((a[1], c) in fc for c in a[3]) for a in stored)
-      sig["calculate"] = "rewrites formula cells" if only_formula else \
-          "emits " + "+".join(sorted(set(a[0] for a in stored)))
+      tc = {(tid, cid) for tid, t in e.schema.items() for cid, c in t.columns.items()
+            if not c.isFormula and c.formula}
+      updates = all(a[0] in ("UpdateRecord", "BulkUpdateRecord") for a in stored)
+      cols = {(a[1], c) for a in stored for c in a[3]} if updates else set()
+      if updates and cols <= fc: sig["calculate"] = "rewrites formula cells"
+      elif updates and cols <= (fc | tc): sig["calculate"] = "writes trigger-formula cells"
+      else: sig["calculate"] = "emits " + "+".join(sorted(set(a[0] for a in stored)))
       out.append(("C04.engine_usable", dict(label, calculate_stored=stored[:6])))
     else:
       sig["calculate"] = "silent"
@@ -250,7 +252,7 @@ def positions(steps, cap):
 
 class C04Monitor(explore.Monitor):
   seeds = ALL_SEEDS
-  length = 6
+  length = 4
   weights = {"add": 6, "bulk_add": 3, "update": 8, "bulk_update": 3, "remove": 5, "bulk_remove": 2,
              "add_col": 4, "add_formula_col": 4, "remove_col": 5, "rename_col": 4, "modify_type": 4,
              "modify_formula": 4, "to_formula": 2, "to_data": 2, "add_table": 2, "remove_table": 2,
@@ -310,8 +312,17 @@ class C04Monitor(explore.Monitor):
       tried.append("%d:%s" % (k, mode))
       if tr2.fired is None:
         if len(tr2.steps) >= k and ex2 is not None and exc_sig(ex2) == st["natural"]["raised"]:
+          # step k itself fails naturally before this position is reached: this run was the
+          # natural failure once more
           stats["faults"] -= 1; stats["by_mode"][mode] -= 1
-          continue      # step k itself fails naturally before this position is reached
+          nlabel = {"fault": "natural", "raised": exc_sig(ex2), "phase": "user-action loop",
+                    "steps": st["natural"]["steps"][:30]}
+          v, repaired = failure_clauses(e, pre, nlabel)
+          if v and not repaired:
+            st["pending"] = v[:1]
+            return
+          if v: st["deferred"].extend(v[:1])
+          continue
         # Same state, same bundle, deterministic engine: the step must exist.
         st["pending"] = [("C04.engine_usable", dict(label, problem="the bundle no longer reaches "
                           "this step (%d steps, outcome %s; shadow engine: %d steps, outcome %s)"
@@ -439,6 +450,14 @@ def classify(clause, detail):
     return "rebuild_usercode fails at ModifyColumn's second call: column data lost"
   if injected and mode == "in_rebuild#1" and action == "RemoveTable":
     return "rebuild_usercode fails in RemoveTable: rollback aborted"
+  if injected and mode == "after" and action == "ModifyColumn" and clause == "C04.state_unchanged" \
+      and sig.get("after_rollback") == "data or metadata differ" and sig.get("schema") == "consistent" \
+      and detail.get("diff") and all(re.match(r"[^ ]+\[\d+\]: ", d) for d in detail["diff"]) \
+      and len(set(d.split("[")[0] for d in detail["diff"])) == 1:
+    return "fault right after the ModifyColumn doc action: the values it converted are not restored"
+  if not injected:
+    # the exception is part of the root cause of a natural failure (message with numbers blanked)
+    return "natural %s: %s" % (detail.get("raised"), symptoms)
   return symptoms
 
 
@@ -489,9 +508,11 @@ def main():
   d = tempfile.mkdtemp(prefix="verif-c04-")
   os.environ["VERIF_C04_STATS"] = d
   try:
-    C02.tune_explore(6)
-    explore.explore(rep, "checks.C04", "C04Monitor", n_quick=64, n_thorough=1600,
-                    budget_quick_s=40)
+    # a history costs seconds here (every bundle is run once per fault position): in the quick tier
+    # failing histories are reported unshrunk (classes do not depend on minimality)
+    C02.tune_explore(0 if common.tier() == "quick" else 20)
+    explore.explore(rep, "checks.C04", "C04Monitor", n_quick=48, n_thorough=1600,
+                    budget_quick_s=18)
     tot = {}
     for p in glob.glob(os.path.join(d, "*.jsonl")):
       for line in open(p):
